@@ -24,7 +24,9 @@ type Loaded struct {
 	Prog     *ssa.Program
 	Pkg      *ssa.Package
 	Fset     *token.FileSet
-	FileDirs []dirLine            // file-level directives
+	FileDirs []dirLine            // file-level directives (legacy: unused)
+	FileOf   map[string]string    // harness function -> file
+	DirsOf   map[string][]dirLine // file -> file-level directives
 	FuncDirs map[string][]dirLine // per harness function
 	Modes    map[string]string    // per harness function: "bv W=520" / "int"
 	Overlay  map[string][]byte
@@ -46,7 +48,7 @@ func Load(repo, pkgPath string, harnessFiles []string, zzverifSrc string) (*Load
 		return nil, err
 	}
 	overlay[filepath.Join(repo, "zzverif", "verif.go")] = zsrc
-	L := &Loaded{FuncDirs: map[string][]dirLine{}, Modes: map[string]string{}, Overlay: overlay, ReachTags: map[string][]string{}}
+	L := &Loaded{FuncDirs: map[string][]dirLine{}, Modes: map[string]string{}, Overlay: overlay, ReachTags: map[string][]string{}, FileOf: map[string]string{}, DirsOf: map[string][]dirLine{}}
 	pkgDir := filepath.Join(repo, pkgPath)
 	for _, hf := range harnessFiles {
 		src, err := os.ReadFile(hf)
@@ -99,8 +101,11 @@ func (L *Loaded) parseDirectives(path string, src []byte) error {
 	}
 	docOf := map[*ast.CommentGroup]string{}
 	for _, d := range f.Decls {
-		if fd, ok := d.(*ast.FuncDecl); ok && fd.Doc != nil && fd.Recv == nil {
-			docOf[fd.Doc] = fd.Name.Name
+		if fd, ok := d.(*ast.FuncDecl); ok && fd.Recv == nil {
+			L.FileOf[fd.Name.Name] = path
+			if fd.Doc != nil {
+				docOf[fd.Doc] = fd.Name.Name
+			}
 		}
 	}
 	for _, cg := range f.Comments {
@@ -120,14 +125,14 @@ func (L *Loaded) parseDirectives(path string, src []byte) error {
 			dl := dirLine{kind: fields[0], args: fields[1:]}
 			if dl.kind == "mode" {
 				if fn == "" {
-					L.Modes[""] = strings.Join(dl.args, " ")
+					L.Modes["file:"+path] = strings.Join(dl.args, " ")
 				} else {
 					L.Modes[fn] = strings.Join(dl.args, " ")
 				}
 				continue
 			}
 			if fn == "" {
-				L.FileDirs = append(L.FileDirs, dl)
+				L.DirsOf[path] = append(L.DirsOf[path], dl)
 			} else {
 				L.FuncDirs[fn] = append(L.FuncDirs[fn], dl)
 			}
@@ -183,7 +188,8 @@ func (L *Loaded) Configure(e *Engine, entry string) error {
 		}
 		return nil
 	}
-	for _, dl := range L.FileDirs {
+	// file-level directives apply to the entries declared in the same file
+	for _, dl := range L.DirsOf[L.FileOf[entry]] {
 		if err := apply(dl); err != nil {
 			return err
 		}
@@ -200,7 +206,7 @@ func (L *Loaded) Configure(e *Engine, entry string) error {
 func (L *Loaded) ModeOf(entry string) (bool, int) {
 	m, ok := L.Modes[entry]
 	if !ok {
-		m = L.Modes[""]
+		m = L.Modes["file:"+L.FileOf[entry]]
 	}
 	intMode := false
 	w := 264
